@@ -189,3 +189,45 @@ def regenerate_and_compare(H, _):
                 H.check(f"generated[{fn}]", os.path.exists(os.path.join(gen, fn)), witness=fn)
     finally:
         shutil.rmtree(tmp, ignore_errors=True)
+
+
+@contract("metadata_unchanged_by_use", ["C13"], kind="bounded",
+          targets=["rv.modules.meta:ModuleMeta", "rv.readers.module:ModuleReader.process_STYP", "rv.modules.metamodule:MetaModule.MappingArray.update_user_defined_controllers"],
+          bound="after constructing every class, loading every fixture, round-tripping a MetaModule whose user-defined controllers map onto negative-minimum / enum / bool controllers, and attempting to load a stream with an unknown module type: the complete class-vs-spec comparison is repeated (native)")
+def metadata_unchanged_by_use(H, _):
+    """The class tables are what the specification says not only at import time but also after the
+    library has been used (no load, construction or mapping may rewrite class-level metadata or
+    register a class the specification lacks)."""
+    import glob
+    import io
+    import os
+
+    from rv.modules.amplifier import Amplifier
+    from rv.modules.metamodule import MetaModule
+    from rv.readers.reader import read_sunvox_file
+    from rv.synth import Synth
+    from spec import format as F
+
+    for cls in K.module_classes():
+        cls()
+    root = os.path.join(os.environ.get("RV_REPO", "/repo"), "tests", "files")
+    for f in sorted(glob.glob(os.path.join(root, "*.sun*"))):
+        read_sunvox_file(f)
+    mm = MetaModule()
+    amp = mm.project.new_module(Amplifier)
+    mm.user_defined_controllers = 3
+    names = list(Amplifier.controllers)
+    for i, n in enumerate(("balance", "inverse", "bipolar_dc_offset")):
+        mm.mappings.values[i] = MetaModule.Mapping((amp.index, names.index(n)))
+    mm.update_user_defined_controllers()
+    mm.clone().clone()
+    unknown = b"".join(F.frame(c, p) for c, p in [(b"SSYN", b""), (b"VERS", F.enc_version((2, 1, 2, 1))), (b"SFFF", F.enc_u32(0x49)),
+                                                   (b"SNAM", F.enc_name32("x")), (b"STYP", F.enc_cstring("Future Synth")), (b"SEND", b"")])
+    try:
+        read_sunvox_file(io.BytesIO(unknown))
+        H.check("unknown_module_type_is_not_silently_accepted", False, witness="loaded a module of a type the specification lacks")
+    except Exception:  # noqa
+        pass
+    registry_bijection(H, None)
+    for key in sorted(yamlspec.module_specs()):
+        class_matches_spec(H, key)
